@@ -171,7 +171,9 @@ class Args:
             args = [self.value(s) for s in shape]
             if args:
                 args[self.n(len(args))] = self.value(self.pick(['fn1', 'fn1', 'fn1', 'fn2', 'builtin', 'any']))
-            args += [self.value(self.pick(['str', 'flags', 'int', 'any', 'str', 'fn1'])) for _ in range([0, 1, 1, 2][self.n(4)])]
+            args += [self.value(self.pick(['flags', 'flags', 'str', 'int', 'any', 'fn1', 'bool'])) for _ in range([0, 1, 1, 2][self.n(4)])]
+            if len(args) >= 2 and isinstance(args[0], str) and isinstance(args[1], str) and self.n(2) == 0:
+                args[1] = args[0][:1 + self.n(3)]       # equal / overlapping string arguments (a pattern that matches its subject)
             return args
         if shapes and self.n(typed_ratio + 1) != 0:
             args = [self.value(s) for s in self.pick(shapes)]
